@@ -140,6 +140,9 @@ type Cfg struct {
 	CancelMs  []int64 `json:"cancel_ms,omitempty"` // environment choice of the cancel delay
 	Closable  bool    `json:"closable"`
 	WarmUp    bool    `json:"warmup"`
+	SkewUs    int64   `json:"skew_us,omitempty"` // every shot ends this many microseconds before its nominal duration
+	Fault2    Fault   `json:"fault2,omitempty"`  // a second component failing in the same run
+	WarmMs    int64   `json:"warm_ms,omitempty"` // the warm-up takes this long and does not look at the context
 	Pools     int     `json:"pools"`
 	OtherLong bool    `json:"other_long,omitempty"`
 	CauseDeadline bool `json:"cause_deadline,omitempty"` // the injected failure is the component's own timeout (wraps context.DeadlineExceeded) // pools other than the first run a long paced profile with unbounded ammo
@@ -150,7 +153,7 @@ type Cfg struct {
 
 func (c Cfg) Name() string {
 	return fmt.Sprintf("%s|startup=%s|rps=%s|perinst=%v|ammo=%d|discard=%v|shot=%v|fault=%s@%d|cancel=%v%v|pools=%d|closable=%v|warm=%v|adv=%v|otherlong=%v",
-		c.Prop, c.Startup, c.RPS, c.PerInst, c.Ammo, c.Discard, c.ShotMs, c.Fault.Kind, c.Fault.Pos, c.Cancel, c.CancelMs, c.Pools, c.Closable, c.WarmUp, c.Advance, c.OtherLong) + map[bool]string{true: "|cause=deadline", false: ""}[c.CauseDeadline]
+		c.Prop, c.Startup, c.RPS, c.PerInst, c.Ammo, c.Discard, c.ShotMs, c.Fault.Kind, c.Fault.Pos, c.Cancel, c.CancelMs, c.Pools, c.Closable, c.WarmUp, c.Advance, c.OtherLong) + map[bool]string{true: "|cause=deadline", false: ""}[c.CauseDeadline] + map[bool]string{true: fmt.Sprintf("|warmms=%d", c.WarmMs), false: ""}[c.WarmMs > 0] + map[bool]string{true: fmt.Sprintf("|fault2=%s@%d", c.Fault2.Kind, c.Fault2.Pos), false: ""}[c.Fault2.Kind != ""] + map[bool]string{true: fmt.Sprintf("|skew=%dus", c.SkewUs), false: ""}[c.SkewUs > 0]
 }
 
 type poolState struct {
@@ -180,15 +183,23 @@ type run struct {
 func (r *run) newWorld() *World {
 	c := r.cfg
 	w := &World{T0: r.t0, Items: c.Ammo, Acquired: map[int]int{}, ProvFailAt: -1, GunFailAt: -1, BindFailAt: -1,
-		PanicAtShot: -1, SchedFailAt: -1, Tokens: map[int]*Token{}, Closable: c.Closable, WarmUp: c.WarmUp, Cause: r.cause, CauseBare: c.CauseDeadline}
+		PanicAtShot: -1, SchedFailAt: -1, Tokens: map[int]*Token{}, Closable: c.Closable, WarmUp: c.WarmUp, WarmDur: ms(c.WarmMs), Cause: r.cause, CauseBare: c.CauseDeadline}
 	for _, m := range c.ShotMs {
-		w.ShotDur = append(w.ShotDur, ms(m))
+		d := ms(m)
+		if d > 0 && c.SkewUs > 0 {
+			d -= time.Duration(c.SkewUs) * time.Microsecond
+		}
+		w.ShotDur = append(w.ShotDur, d)
 	}
 	return w
 }
 
 func (r *run) applyFault(w *World) {
-	f := r.cfg.Fault
+	r.applyOne(w, r.cfg.Fault)
+	r.applyOne(w, r.cfg.Fault2)
+}
+
+func (r *run) applyOne(w *World, f Fault) {
 	switch f.Kind {
 	case "prov":
 		w.ProvFailAt = f.Pos
@@ -509,27 +520,26 @@ func (r *run) checkC05(end, msg string) error {
 	}
 	f := r.cfg.Fault
 	w := r.pools[0]
-	faultHappened := false
-	switch f.Kind {
-	case "prov":
-		faultHappened = w.ProvRunEnd == 2 && (f.Pos == 0 || w.AcquireN >= f.Pos || true) && provFailed(w, f.Pos)
-	case "provlate":
-		faultHappened = w.ProvRunEnd == 2 && w.AcquireN == w.Items
-	case "aggstart":
-		faultHappened = w.AggRunEnd == 2
-	case "aggend":
-		faultHappened = w.AggRunEnd == 2
-	case "gun":
-		faultHappened = len(w.Guns) > f.Pos
-	case "bind":
-		faultHappened = len(w.Guns) > f.Pos
-	case "warm":
-		faultHappened = true
-	case "sched":
-		faultHappened = w.SchedCalls > f.Pos
-	case "panic":
-		faultHappened = w.ShotN > f.Pos
+	happened := func(f Fault) bool {
+		switch f.Kind {
+		case "prov":
+			return w.ProvRunEnd == 2 && provFailed(w, f.Pos)
+		case "provlate":
+			return w.ProvRunEnd == 2 && w.AcquireN == w.Items
+		case "aggstart", "aggend":
+			return w.AggRunEnd == 2
+		case "gun", "bind":
+			return len(w.Guns) > f.Pos
+		case "warm":
+			return true
+		case "sched":
+			return w.SchedCalls > f.Pos
+		case "panic":
+			return w.ShotN > f.Pos
+		}
+		return false
 	}
+	faultHappened := happened(f) || happened(r.cfg.Fault2)
 	cancelledBeforeReturn := r.cancelled && r.cancelStamp < r.runStamp
 	switch {
 	case f.Kind == "" && !r.cfg.Cancel:
